@@ -60,6 +60,7 @@ def floors(tier):
         "cls:unicode_line_boundary": f,
         "read_back_through_LocalBackend.stdout": 10 * f,
         "polls_during_script": 10 * f,
+        "decided:unterminated_lines_parse_alike": 10 * f,
         "cls:long_multibyte_output": f,
         "noise:no_newline_before_report": f,
         "rejected:reserved_key": f // 2,
@@ -352,6 +353,17 @@ def run_case(spec):
     except Exception as e:  # noqa: BLE001
         o.violate("parse", "retrieve_raised:" + type(e).__name__, {"error": repr(e)[:300], "lines": lines[:20]})
         got = None
+    if got is not None:
+        # line terminators carry no meaning: the same log handed over as lines WITHOUT their trailing newline (how a caller
+        # that split the captured text itself, or a log service delivering one message per line, passes it) parses alike
+        try:
+            got2 = retrieve(log_lines="".join(lines).split("\n"))
+            o.count("decided:unterminated_lines_parse_alike")
+            if got2 != got and not (len(got2) == len(got) and all(_eq(a_, b_) for a_, b_ in zip(got, got2))):
+                o.violate("exactly_those_reports", "lines_without_trailing_newline_parse_differently",
+                          {"terminated": len(got), "unterminated": len(got2)})
+        except Exception as e:  # noqa: BLE001
+            o.violate("parse", "retrieve_raised_on_lines_without_trailing_newline:" + type(e).__name__, {"error": repr(e)[:300]})
     if got is not None:
         o.count("retrieve_calls")
         if len(got) != len(expected):
